@@ -102,6 +102,8 @@ fn main() {
         "C20e" => p_cli::run_c20e(&mut ctx, from, to),
         #[cfg(feature = "train")]
         "C11cli" => p_cli::run_c11cli(&mut ctx, from, to),
+        #[cfg(feature = "train")]
+        "C13t" => p_train::run_c13t(&mut ctx, from, to),
         #[cfg(feature = "cli")]
         "C17cli" => p_cli::run_c17cli(&mut ctx, from, to),
         #[cfg(feature = "cli")]
